@@ -29,6 +29,7 @@ INPUTS = [
     [[1, 2], [], [3]], [[], []], [E1, 1, E2], ['a', 'ab', 'b', 'ba', 'c'], [1, 1, 2, 2, 2, 1], [(1, 2), (3,)],
     [rnd.randrange(5) for _ in range(31)],
 ]
+PEEK_EXC_DONE = []
 fails = []
 
 
@@ -93,6 +94,45 @@ for xs in INPUTS:
     check(f'peek float {xs}', list(Stream(Src(xs)).peek(print_func=lambda m: None, interval=0.5)), xs)
     check(f'peek none {xs}', list(Stream(Src(xs)).peek(print_func=lambda m: None, interval=None, exc_types=None)), xs)
     key = (lambda x: repr(x)[:1])
+    if not PEEK_EXC_DONE:
+        # peek over exception ELEMENTS of every provenance: plain, remote (came out of a RemoteException), and application errors raised `from` a
+        # remote one (indirectly remote): peek is read-only and one-to-one whatever it prints about them
+        PEEK_EXC_DONE.append(1)
+        import pickle
+        from mpservice.multiprocessing.remote_exception import RemoteException
+
+        def remote(x):
+            try:
+                raise ValueError(x)
+            except ValueError as e:
+                return pickle.loads(pickle.dumps(RemoteException(e)))
+
+        def wrapped(x):
+            try:
+                try:
+                    raise remote(x)
+                except ValueError as e:
+                    raise RuntimeError(f'wrapped {x}') from e
+            except RuntimeError as e:
+                return e
+
+        def chained(x):
+            try:
+                try:
+                    raise KeyError(x)
+                except KeyError:
+                    raise LookupError(x)        # implicit context, no cause
+            except LookupError as e:
+                return e
+        elems = [0, ValueError(1), remote(2), wrapped(3), chained(4), 5, wrapped(6), remote(7)]
+        for kw in ({}, {'interval': 1}, {'exc_types': None}, {'exc_types': (RuntimeError,)}):
+            try:
+                out = list(Stream(Src(elems)).peek(print_func=lambda m: None, **kw))
+            except BaseException as e:      # noqa: BLE001
+                fails.append(f'peek{kw} over exception elements raised {type(e).__name__}: {e}')
+                continue
+            if len(out) != len(elems) or any(a is not b for a, b in zip(out, elems)):
+                fails.append(f'peek{kw} over exception elements changed the stream: {out}')
     check(f'groupby {xs}', [(k, list(g)) for k, g in Stream(Src(xs)).groupby(key)], [(k, list(g)) for k, g in itertools.groupby(xs, key)])
     f = lambda a, b: (a, b)
     check(f'accumulate {xs}', list(Stream(Src(xs)).accumulate(f)), ref_acc(xs, f))
